@@ -414,10 +414,23 @@ func genC11(c *Ctx) {
 		for _, in := range c.independentInputs(f.name) {
 			extra = append(extra, in.data, in.data) // the second copy gets mutated below
 		}
+		for _, d := range errorClassInputs(f.name) {
+			extra = append(extra, d, d) // (odd positions are mutated and normalised below, even ones normalised here)
+		}
 		for i := 0; i < c.n(400)+len(extra); i++ {
 			var data []byte
 			if i < len(extra) {
 				data = extra[i]
+				if i%2 == 0 {
+					switch f.name {
+					case "sam", "samh":
+						data = normSam(data)
+					case "bed":
+						data = normBed(data)
+					case "newick":
+						data = normNewick(data)
+					}
+				}
 				if i%2 == 1 {
 					data = c.mutate(data, []byte("@\t\r\n"))
 					switch f.name {
@@ -523,6 +536,22 @@ func genC18(c *Ctx) {
 			multi = append(multi, f.wellFormed(c)...)
 		}
 		big = append(big, multi)
+		switch f.name {
+		case "sam", "samh":
+			for _, d := range errorClassInputs(f.name) {
+				big = append(big, normSam(d))
+			}
+		case "bed":
+			for _, d := range errorClassInputs(f.name) {
+				big = append(big, normBed(d))
+			}
+		case "newick":
+			for _, d := range errorClassInputs(f.name) {
+				big = append(big, normNewick(d))
+			}
+		default:
+			big = append(big, errorClassInputs(f.name)...)
+		}
 		for i := 0; i < c.n(60)+len(big); i++ {
 			var data []byte
 			if i >= c.n(60) {
